@@ -145,6 +145,15 @@ func genCfg(r *Rng) *handCfg {
 		// big chips: the same table with every amount multiplied by a large factor (above 2^31, above 2^53 for the total):
 		// the engine's arithmetic is int64 throughout; a narrower or floating intermediate would show only here
 		k := []int64{1000003, 1 << 31, 4294967311, 1099511627, 1<<47 + 1}[r.Intn(5)] // the last one: stacks beyond 2^53 (not every int64 is a float64)
+		maxBank := int64(0)
+		for _, b := range c.bank {
+			if b > maxBank {
+				maxBank = b
+			}
+		}
+		if maxBank <= 300 && len(c.bank) <= 6 && r.Chance(0.6) {
+			k = 1<<52 + 1 // small stacks only: even a SHORT stack is beyond 2^53 then (the total stays below 2^63)
+		}
 		c.ante, c.sb, c.bb, c.bd = c.ante*k, c.sb*k, c.bb*k, c.bd*k
 		for i := range c.bank {
 			c.bank[i] = c.bank[i]*k + int64(r.Intn(3))
@@ -365,6 +374,9 @@ func playHand(o *Out, r *Rng, cfgLine string, probeP, viewP, hopP, malP float64)
 			h.noise(r.Intn(5))
 		}
 		if r.Chance(0.05) {
+			h.bystanderStep(r)
+		}
+		if r.Chance(0.05) {
 			h.query(r.Intn(5))
 		}
 		if h.saved == nil && r.Chance(0.04) {
@@ -409,6 +421,17 @@ func runEngine(dir string, seed uint64, n int) {
 		playHand(o, r, line, 0.04, 0.05, 0.3, 0.06)
 		if i < 2 {
 			o.Sample(line)
+		}
+		if r.Chance(0.08) && c.hole >= 2 {
+			// the SAME table, deck order and stakes once more under the OTHER ranking table (games of both variants live in one process
+			// and meet the same five cards: whatever the package remembers about a hand must not depend on who asked first)
+			if c.table == "std" {
+				c.table = "short"
+			} else {
+				c.table = "std"
+			}
+			playHand(o, r, c.line(), 0.02, 0.03, 0.2, 0.02)
+			o.Count("engine.replayed_under_other_table")
 		}
 	}
 	// malformed configurations: Start must refuse (C06)
